@@ -66,7 +66,7 @@ func sliceRoots(v ssa.Value, seen map[ssa.Value]bool, out *[]ssa.Value) {
 
 func runC17(c *Ctx) {
 	P := c.P
-	c.Explanation = "Decides structural clauses: (R-CLIP) every subslice of the input handed out by Partition, Chunks and Batches is a three-index slice whose capacity bound equals its length bound, so appending to a result cannot overwrite the caller's other elements (no test looks at cap); (R-DIV-NONZERO) no integer division or remainder in package slice has a divisor that may be zero on some path (facts from dominating branches, per-edge phi reasoning and predicate summaries of the range-check helpers); (R-INDEX-GUARD) At and PtrAt index only under a successful strict range check; (R-SWAP-ONLY) Partition writes its input only by exchanging two elements, so the slice stays a permutation of itself. Does NOT decide which elements end up where (Partition's order, Rotate's permutation, chunk/batch lengths, Head/Tail/Stripe contents)."
+	c.Explanation = "Decides structural clauses: (R-CLIP) every subslice of the input handed out by Partition, Chunks and Batches is a three-index slice whose capacity bound equals its length bound, so appending to a result cannot overwrite the caller's other elements (no test looks at cap); (R-DIV-NONZERO) no integer division or remainder in package slice has a divisor that may be zero on some path (facts from dominating branches, per-edge phi reasoning and predicate summaries of the range-check helpers); (R-INDEX-GUARD) At and PtrAt index only under a successful strict range check; (R-SWAP-ONLY) Partition writes its input only by exchanging two elements, so the slice stays a permutation of itself. A subslice bound derived from cap(input) violates the clip rule. Does NOT decide which elements end up where (Partition's order, Rotate's permutation, chunk/batch lengths, Head/Tail/Stripe contents)."
 	c.rule("R-CLIP", 3, "every slice expression over the input in Partition/Chunks/Batches has Max present and equal to High")
 	c.rule("R-DIV-NONZERO", 2, "every integer / and % in package slice has a divisor proved non-zero")
 	c.rule("R-INDEX-GUARD", 2, "At/PtrAt: the index into the parameter slice satisfies 0 <= idx < len by a dominating successful range check")
@@ -97,6 +97,38 @@ func runC17(c *Ctx) {
 				return
 			}
 			key := fmt.Sprintf("%s:%s", fnName(fn), ksym(sl))
+			// a bound taken from the CAPACITY of the input reaches past its length: elements that are not part of vs
+			usesCap := false
+			var walkB func(v ssa.Value, d int)
+			walkB = func(v ssa.Value, d int) {
+				if v == nil || d > 6 {
+					return
+				}
+				if cp, ok := isBuiltinCall(v, "cap"); ok && cp.Call.Args[0] == ssa.Value(fn.Params[0]) {
+					usesCap = true
+				}
+				switch x := v.(type) {
+				case *ssa.BinOp:
+					walkB(x.X, d+1)
+					walkB(x.Y, d+1)
+				case *ssa.Phi:
+					for _, e := range x.Edges {
+						walkB(e, d+1)
+					}
+				case *ssa.Call:
+					if _, isB := x.Call.Value.(*ssa.Builtin); isB {
+						for _, a := range x.Call.Args {
+							walkB(a, d+1)
+						}
+					}
+				}
+			}
+			walkB(sl.High, 0)
+			walkB(sl.Low, 0)
+			if usesCap {
+				c.bad("R-CLIP", key, sl.Pos(), "a bound of this subslice is computed from cap(input): it can reach past len(input) into memory that is not part of the slice")
+				return
+			}
 			switch {
 			case sl.Max == nil:
 				c.bad("R-CLIP", key, sl.Pos(), "subslice of the input is handed out without a capacity bound: append on the result overwrites the caller's following elements")
